@@ -15,6 +15,8 @@ import rules_protocol  # noqa: E402
 GROUPS = [
     ('rules_protocol', 'rule_exec'),
     ('rules_protocol', 'rule_req'),
+    ('rules_protocol', 'rule_val'),
+    ('rules_protocol', 'rule_ops'),
 ]
 
 
